@@ -21,6 +21,7 @@ import (
 	"path/filepath"
 	"strings"
 	"sync"
+	"time"
 
 	"github.com/BlackVectorOps/semantic_firewall/v3/internal/cli"
 	"github.com/BlackVectorOps/semantic_firewall/v3/internal/verifh/lib/evid"
@@ -308,12 +309,58 @@ func batch(res *evid.Result, bi int, root string) {
 	if bi >= evid.Pick(1, 1000) {
 		return
 	}
-	for _, dbName := range []string{"sigs.db", "sigs.json"} {
+	// unrelated code indexed into the same database by later, separate index runs: what was
+	// indexed first must still be found afterwards (a database grows incrementally)
+	otherDir := filepath.Join(dir, "other", "q")
+	os.MkdirAll(otherDir, 0o755)
+	os.WriteFile(filepath.Join(dir, "other", "go.mod"), []byte("module example.com/other\n\ngo 1.24\n"), 0o644)
+	otherPath := filepath.Join(otherDir, "q.go")
+	os.WriteFile(otherPath, []byte(otherSource), 0o644)
+	for _, dbName := range []string{"sigs.db", "sigs.json", "incr.db", "incr.json"} {
 		db := filepath.Join(dir, dbName)
-		cmd := exec.Command(sfw, "index", "--name", "IDX", "--db", db, basePath)
-		if out, err := cmd.CombinedOutput(); err != nil {
-			res.Violate("cli/index-failed", fmt.Sprintf("sfw index failed: %v: %s", err, tail(out)), nil)
-			continue
+		if strings.HasPrefix(dbName, "incr") {
+			// in-process and immediately after one another (as a script looping over
+			// directories would), the first run being the file under test
+			// Workload shaping only (no verdict depends on it): the runs are started so that
+			// they finish within one wall-clock second of each other, the situation a script
+			// indexing several small directories produces all the time. The duration of the
+			// first run is measured on a throw-away database first.
+			t0 := time.Now()
+			if err := quietIndex(basePath, "IDX", db+".warmup"); err != nil {
+				res.Violate("cli/index-failed", fmt.Sprintf("index (in-process) failed: %v", err), nil)
+				continue
+			}
+			dur := time.Since(t0)
+			end := time.Now().Add(dur)
+			wait := time.Duration(0)
+			if frac := time.Duration(end.Nanosecond()); frac > 150*time.Millisecond {
+				wait = time.Second - frac + 100*time.Millisecond
+			}
+			time.Sleep(wait)
+			if err := quietIndex(basePath, "IDX", db); err != nil {
+				res.Violate("cli/index-failed", fmt.Sprintf("index (in-process) failed: %v", err), nil)
+				continue
+			}
+			if f := time.Now().Nanosecond(); f < int(600*time.Millisecond) {
+				res.Count("incremental_runs_started_early_in_a_second", 1)
+			}
+			failed := false
+			for k := 0; k < 2; k++ {
+				if err := quietIndex(otherPath, fmt.Sprintf("OTH%d", k), db); err != nil {
+					res.Violate("cli/index-failed", fmt.Sprintf("second index run into %s failed: %v", dbName, err), nil)
+					failed = true
+				}
+			}
+			if failed {
+				continue
+			}
+			res.Count("incremental_databases", 1)
+		} else {
+			cmd := exec.Command(sfw, "index", "--name", "IDX", "--db", db, basePath)
+			if out, err := cmd.CombinedOutput(); err != nil {
+				res.Violate("cli/index-failed", fmt.Sprintf("sfw index failed: %v: %s", err, tail(out)), nil)
+				continue
+			}
 		}
 		for k := 0; k < nCLI; k++ {
 			t := targets[len(targets)-1-k]
@@ -366,6 +413,10 @@ func batch(res *evid.Result, bi int, root string) {
 					res.Count("cli_functions_judged", 1)
 					mode := map[bool]string{true: "exact", false: "full"}[exact]
 					bk := map[bool]string{true: "json", false: "pebble"}[strings.HasSuffix(dbName, ".json")]
+					if strings.HasPrefix(dbName, "incr") && class == "refactored" {
+						// (the known same-package-callee class keeps its key: same root cause)
+						bk += "-incremental"
+					}
 					if c, ok := got[ft.short+"|IDX_"+orig]; !ok && bk == "json" && exact && gotAny[ft.short] {
 						res.Violate("cli/json/exact/shadowed-by-earlier-signature", fmt.Sprintf("sfw scan --exact (json): %s was reported against an unrelated signature only", ft.short), map[string]any{"args": args})
 					} else if !ok {
@@ -378,6 +429,92 @@ func batch(res *evid.Result, bi int, root string) {
 		}
 	}
 }
+
+// otherSource: three functions of shapes the generator does not produce (so that they are
+// nobody's twin), indexed into the same database after the file under test.
+const otherSource = `package q
+
+import (
+	"errors"
+	"sort"
+	"sync"
+)
+
+func OddOne(xs []string, mu *sync.Mutex) (n int, err error) {
+	defer mu.Unlock()
+	mu.Lock()
+	sort.Strings(xs)
+	for i := range xs {
+		for j := range xs[i] {
+			for k := j; k < len(xs[i]); k += 3 {
+				if xs[i][k] == 'q' {
+					return n, errors.New("q found")
+				}
+				n += k ^ j
+			}
+		}
+	}
+	return n, nil
+}
+
+func OddTwo(a, b, c chan int, stop chan struct{}) int {
+	t := 0
+	for {
+		select {
+		case v := <-a:
+			t += v
+		case v := <-b:
+			t -= v
+		case c <- t:
+			t = 0
+		case <-stop:
+			return t
+		}
+	}
+}
+
+func OddThree(m map[string][]int, key string) (out []int) {
+	defer func() {
+		if r := recover(); r != nil {
+			out = nil
+		}
+	}()
+	for k, vs := range m {
+		if k == key {
+			continue
+		}
+		for _, v := range vs {
+			if v < 0 {
+				panic("negative")
+			}
+			out = append(out, v*len(k))
+		}
+	}
+	sort.Ints(out)
+	return out
+}
+`
+
+// quietIndex runs the index command's implementation in this process with its report
+// (printed on stdout) discarded.
+func quietIndex(target, name, db string) error {
+	idxMu.Lock()
+	defer idxMu.Unlock()
+	if devNull == nil {
+		devNull, _ = os.OpenFile(os.DevNull, os.O_WRONLY, 0)
+	}
+	if devNull != nil {
+		old := os.Stdout
+		os.Stdout = devNull
+		defer func() { os.Stdout = old }()
+	}
+	return cli.RunIndex(target, name, "HIGH", "malware", db)
+}
+
+var (
+	idxMu   sync.Mutex // os.Stdout is process-global: one in-process index run at a time
+	devNull *os.File
+)
 
 // renamedClosureParam: the call profile names a closure by its signature INCLUDING the
 // parameter names, and one of them was renamed by the refactoring (suffix _zr<N>).
